@@ -1242,32 +1242,27 @@ var plannerInputStoreExceptions = map[string]string{
 
 // plannerInputStoreValidators check, per listed exception, that the store is still idempotent:
 // the guard that makes the second execution a no-op encloses it.
-var plannerInputStoreValidators = map[string]func(info *types.Info, pm map[ast.Node]ast.Node, lhs ast.Expr) bool{
-	// t.Attrs = append(t.Attrs, a) only under !sqlx.Has(t.Attrs, &<type of a>{})
-	"mysql.(state).column|t.Attrs": func(info *types.Info, pm map[ast.Node]ast.Node, lhs ast.Expr) bool {
-		for _, f := range enclosingFacts(pm, lhs) {
-			call, ok := ast.Unparen(f.expr).(*ast.CallExpr)
-			if !ok || f.val || !funcIs(calleeOf(info, call), pSqlx, "", "Has") || len(call.Args) != 2 {
-				continue
+var plannerInputStoreValidators = map[string]func(info *types.Info, fl *Flow, lhs ast.Expr) bool{
+	// t.Attrs = append(t.Attrs, a) only where !sqlx.Has(t.Attrs, &<type of a>{}) was established
+	"mysql.(state).column|t.Attrs": func(info *types.Info, fl *Flow, lhs ast.Expr) bool {
+		return fl.established(lhs, func(e ast.Expr, val bool) bool {
+			call, ok := ast.Unparen(e).(*ast.CallExpr)
+			if !ok || val || !funcIs(calleeOf(info, call), pSqlx, "", "Has") || len(call.Args) != 2 {
+				return false
 			}
-			if types.ExprString(ast.Unparen(call.Args[0])) == types.ExprString(ast.Unparen(lhs)) {
-				return true
-			}
-		}
-		return false
+			return types.ExprString(ast.Unparen(call.Args[0])) == types.ExprString(ast.Unparen(lhs))
+		})
 	},
-	// idx.Name = … only under strings.HasPrefix(idx.Name, "sqlite_autoindex…")
-	"sqlite.normalizeIdxName|idx.Name": func(info *types.Info, pm map[ast.Node]ast.Node, lhs ast.Expr) bool {
-		for _, f := range enclosingFacts(pm, lhs) {
-			call, ok := ast.Unparen(f.expr).(*ast.CallExpr)
-			if !ok || !f.val || !funcIs(calleeOf(info, call), "strings", "", "HasPrefix") || len(call.Args) != 2 {
-				continue
+	// idx.Name = … only where strings.HasPrefix(idx.Name, "sqlite_autoindex…") was established
+	"sqlite.normalizeIdxName|idx.Name": func(info *types.Info, fl *Flow, lhs ast.Expr) bool {
+		return fl.established(lhs, func(e ast.Expr, val bool) bool {
+			call, ok := ast.Unparen(e).(*ast.CallExpr)
+			if !ok || !val || !funcIs(calleeOf(info, call), "strings", "", "HasPrefix") || len(call.Args) != 2 {
+				return false
 			}
-			if s, ok := stringConst(info, call.Args[1]); ok && strings.HasPrefix(s, "sqlite_autoindex") && types.ExprString(ast.Unparen(call.Args[0])) == types.ExprString(ast.Unparen(lhs)) {
-				return true
-			}
-		}
-		return false
+			s, ok := stringConst(info, call.Args[1])
+			return ok && strings.HasPrefix(s, "sqlite_autoindex") && types.ExprString(ast.Unparen(call.Args[0])) == types.ExprString(ast.Unparen(lhs))
+		})
 	},
 }
 
@@ -1419,7 +1414,6 @@ func checkPlannerInputReadOnly(c *Ctx, rule string) {
 			bad := ""
 			pos := fi.Decl.Pos()
 			var exceptions []string
-			pmAll := parentMap(fi.Decl)
 			store := func(l ast.Expr, at token.Pos) {
 				l = ast.Unparen(l)
 				var base ast.Expr
@@ -1446,7 +1440,7 @@ func checkPlannerInputReadOnly(c *Ctx, rule string) {
 				}
 				if _, listed := plannerInputStoreExceptions[fi.Name+"|"+types.ExprString(l)]; listed {
 					// a listed exception holds only while the reason it is listed for is visible in the code
-					if v := plannerInputStoreValidators[fi.Name+"|"+types.ExprString(l)]; v == nil || v(info, pmAll, l) {
+					if v := plannerInputStoreValidators[fi.Name+"|"+types.ExprString(l)]; v == nil || v(info, newFlow(info, fi.Decl.Body), l) {
 						exceptions = append(exceptions, types.ExprString(l))
 						return
 					}
